@@ -416,7 +416,7 @@ func (e *c13Echo) serve(ft *FakeTarget, c net.Conn) {
 
 func c13Run(t *testing.T, run *Run, sc c13Scenario) {
 	w := NewWorld(t, WorldOpt{TLSListener: true})
-	defer w.Close()
+	defer func() { w.Close() }()
 	run.Eval()
 	echo := &c13Echo{got: map[int]*RawMsg{}, sent: map[int]*RawMsg{}, cases: map[int]c13Case{}, dropped: map[int]bool{}, attempts: map[int][]*RawMsg{}}
 	for _, c := range sc.Cases {
@@ -443,6 +443,20 @@ func c13Run(t *testing.T, run *Run, sc c13Scenario) {
 		!depBuf(w, run) ||
 		!dep("tls", server.ServiceOptions{Hosts: []string{"tls.example"}, TLSEnabled: true, TLSCertificatePath: fix + "/cert.pem", TLSPrivateKeyPath: fix + "/key.pem"}, false) {
 		return
+	}
+	if sc.Idx%3 == 2 {
+		// the proxy is restarted before it forwards anything: what the statement says of a service's
+		// settings (prefix stripping on or off, header forwarding, buffering) holds for a proxy that
+		// read them from its state file as for the one that was given them
+		dir := w.CopyState()
+		w.Close()
+		w = NewWorld(t, WorldOpt{TLSListener: true, StateDir: dir})
+		w.AddTarget("echo:80", nil).RawServe = echo.serve
+		if err := w.Router.RestoreLastSavedState(); err != nil {
+			run.Violate("restore-failed", fmt.Sprintf("RestoreLastSavedState: %v", err), sc, nil)
+			return
+		}
+		run.Count("scenarios_served_by_a_restored_proxy", 1)
 	}
 	hostOf := map[string]string{"buf": "buf.example", "root": "plain.example", "app": "plain.example:8080", "raw": "plain.example", "fwd": "fwd.example", "fwdapp": "fwd.example", "tls": "tls.example"}
 	seenIDs := map[string]int{}
